@@ -300,6 +300,79 @@ def h_binary(eng):
     eng.prove("binary.no_other_node_is_touched", z3.BoolVal(frame_ok(L, before, c)))
 
 
+def h_additive_chain(eng):
+    """an unparenthesised chain  x0 op1 x1 op2 x2 ... of additive operators, of any length: ANTLR's left-recursive rule nests the
+    contexts to the left (each inner context is the first operand of its parent, `parentCtx` links them), the listener is called for
+    them innermost first, and whatever tree it builds for the outermost context must denote the LEFT-associative value
+    (((x0 op1 x1) op2 x2) ...) -- the meaning of `a - b - c` -- for every length, not only the short ones."""
+    A, L, P = setup(eng)
+    eng.max_unroll = max(eng.max_unroll, 200)          # concrete chains: loops over their terms are simply run
+    n = [2, 3, 33, 40, 70][eng.choice(5)]
+    pattern = ["+", "-", ".-", "mixed", ".+"][eng.choice(5)]
+    eng.input("terms", n)
+    eng.input("operators", pattern)
+    mixed = ["-", "+", ".-", "-", ".+", ".-", "-"]
+    opsq = [(mixed[k % len(mixed)] if pattern == "mixed" else pattern) for k in range(n - 1)]
+    leaves, vals = [], []
+    for k in range(n):
+        c = ctx(eng, P, "Expr_primary")
+        node = A.prim(k * k + 1)
+        put_ast(eng, L, c, node)
+        c.fields["parentCtx"] = None
+        leaves.append(c)
+        vals.append(k * k + 1)
+
+    def accessor(items):
+        return stub(lambda eng, *a: VList(list(items)) if not a else items[a[0]])
+    inner = leaves[0]
+    chain = []
+    for k in range(1, n):
+        c = ctx(eng, P, "Expr_add", label_op=Tok(opsq[k - 1]))
+        c.fields["expr"] = accessor([inner, leaves[k]])
+        c.fields["parentCtx"] = None
+        inner.fields["parentCtx"] = c
+        leaves[k].fields["parentCtx"] = c
+        chain.append(c)
+        inner = c
+    try:
+        for c in chain:                      # the walker leaves the innermost context first
+            call(eng, L, "exitExpr_add", c)
+    except PyRaise as e:
+        eng.prove("chain.no_exception", False, exc=repr(e.exc))
+        return
+    eng.cover("chain.n%d" % n)
+    node = get_ast(eng, L, chain[-1])
+
+    def value(x, depth=0):
+        if depth > 400 or not isinstance(x, VObj):
+            return None
+        if x.cls is A.cls("Primary"):
+            return x.fields["value"]
+        if is_expression(A, x):
+            o = x.fields["operands"].items
+            if len(o) != 2:
+                return None
+            l, r = value(o[0], depth + 1), value(o[1], depth + 1)
+            if l is None or r is None:
+                return None
+            return l + r if x.fields["operator"] in ("+", ".+") else (l - r if x.fields["operator"] in ("-", ".-") else None)
+        return None
+    want = vals[0]
+    for o, v in zip(opsq, vals[1:]):
+        want = want + v if o in ("+", ".+") else want - v
+    eng.prove("chain.tree_denotes_the_left_associative_value", z3.BoolVal(value(node) == want), got=repr(value(node)), want=want)
+
+    def leaves_in_order(x, out):
+        if isinstance(x, VObj) and is_expression(A, x):
+            for o in x.fields["operands"].items:
+                leaves_in_order(o, out)
+        else:
+            out.append(x)
+        return out
+    got_leaves = leaves_in_order(node, [])
+    eng.prove("chain.operands_appear_once_each_in_source_order", z3.BoolVal(len(got_leaves) == n and all(g is get_ast(eng, L, c) for g, c in zip(got_leaves, leaves))))
+
+
 def h_power(eng):
     A, L, P = setup(eng)
     toks = tokens_of(eng, "Expr_exp")
@@ -575,7 +648,7 @@ HARNESSES = [("precedence table of the generated parser", h_precedence_table),
              ("ranges", h_range),
              ("if-expressions", h_if),
              ("numerals", h_number),
-             ("strings", h_string),
+             ("additive chains of any length", h_additive_chain), ("strings", h_string),
              ("booleans", h_boolean),
              ("calls", h_call)]
 EXPECTED_COVER = {"table.extracted", "power", "unary.Expr_signed", "unary.Expr_not", "paren.list", "range.2", "range.3", "if.elseif0", "if.elseif6",
